@@ -23,9 +23,10 @@ PROBES = {"C13": ["stretch_inside_training", "stretch_overlapping_end", "stretch
                   "reconfigured_and_refitted", "strided_stretch", "refitted_on_other_stretch",
                   "frozen_update_checked", "period_changed_and_refitted",
                   "fit_transform_on_fitted_instance", "unpaired_calls_checked",
-                  "sibling_from_same_arguments"]}
+                  "sibling_from_same_arguments", "refitted_on_structureless_series",
+                  "failed_refit_checked"]}
 FAULT_KINDS = {"C13": ["index_shift", "pickle_roundtrip", "update_interleaved", "overlap_batch",
-                       "shared_constructor_arguments"]}
+                       "shared_constructor_arguments", "fit_raises_midway"]}
 RULE = {"C13": (
     "seeded transformer configuration x series x history of fit, round trips on stretches that "
     "start inside / across the end of / after the training series, interleaved update calls and "
@@ -155,20 +156,31 @@ def generate(prop, rng, tier):
                 ops.append({"op": "reconfigure", "what": "passthrough"})
         elif r < 0.94:
             ops.append({"op": "refit", "start": rng.randint(1, 7),
-                        "via": rng.choice(["fit", "fit_transform"])})
+                        "via": rng.choice(["fit", "fit_transform"]),
+                        "data": rng.choice(["same", "same", "flat"])})
         elif r < 0.955:
             ops.append({"op": "sibling", "start": rng.randint(0, 6)})
+        elif r < 0.965:
+            ops.append({"op": "failed_refit", "pos": rng.randint(1, 6)})
         elif r < 0.98 and minstretch == 1:
             ops.append({"op": "unpaired", "where": rng.choice(["inside", "overlap", "after"]),
                         "off": rng.randint(0, 9), "len": rng.randint(2, 8),
                         "stride": rng.choice([2, 3]), "first": rng.choice(["transform", "inverse"])})
         else:
             ops.append({"op": "pickle"})
+    series_sp = rng.choice([2, 3, 4, 5, 7])
+    if _base0(spec)["kind"] == "cdeseason" and spec["kind"] != "ttf_t":
+        # a training series that IS seasonal at the configured period, and often a second fit
+        # on one that is not
+        series_sp = _base0(spec).get("sp", 2)
+        if rng.random() < 0.5:
+            ops.insert(rng.randint(1, len(ops)), {"op": "refit", "start": rng.randint(1, 5),
+                                                  "via": "fit", "data": "flat"})
     return {"spec": spec, "ops": ops,
             "series": {"seed": rng.randint(0, 10 ** 6), "n": total + 30,
                        "origin": rng.choice([0, 0, 1, 7, 21, 100, -5, -40]),
                        "index": rng.choice(["range", "range", "int"]),
-                       "sp": rng.choice([2, 3, 4, 5, 7])},
+                       "sp": series_sp},
             "shift": rng.choice([-40, -3, 1, 2, 5, 17, 500]),
             "outliers": rng.random() < 0.5}
 
@@ -322,6 +334,14 @@ def execute(prop, scen):
                 if st + n_fit > len(y) - 4:
                     continue
                 via = op.get("via", "fit")
+                y_main, y2_main = y, y2
+                if op.get("data") == "flat":
+                    # the second training series has no seasonality and no trend at all
+                    rs_ = np.random.RandomState(scen["series"]["seed"] + 77)
+                    vals_ = np.round(50.0 + rs_.normal(scale=0.5, size=len(y)), 4)
+                    y = pd.Series(vals_, index=y_main.index)
+                    y2 = pd.Series(vals_, index=y2_main.index)
+                    res.probe("refitted_on_structureless_series")
                 if via == "fit_transform":
                     # fit_transform on an already fitted object == fit(z).transform(z) of a new one
                     outs = both("fit_transform", lambda tr, yy: tr.fit_transform(
@@ -352,7 +372,25 @@ def execute(prop, scen):
                     v("stale_state_after_refit", "after a second fit on a stretch starting %d points "
                       "later the transformer gives %s, a fresh one fitted on that stretch gives %s"
                       % (st, C.fmt(a_), C.fmt(b_)))
+                    y, y2 = y_main, y2_main
                     break
+                if kind in INVERTIBLE and _base(spec)["kind"] != "passthrough" and \
+                        hasattr(t, "inverse_transform") and not _ill_conditioned(t, spec):
+                    try:
+                        zi_ = t.inverse_transform(a_.copy())
+                    except Exception as e:  # noqa
+                        v("op_raised", "inverse_transform after a second fit raised %s" % type(e).__name__,
+                          op="refit", exc=type(e).__name__)
+                        y, y2 = y_main, y2_main
+                        break
+                    fin_ = np.isfinite(np.asarray(a_.values, float))
+                    if not (C.same_index(zi_.index, zz.index) and np.allclose(
+                            np.asarray(zi_.values, float)[fin_], zz.values[fin_], rtol=1e-6, atol=1e-8)):
+                        v("roundtrip_values", "after a second fit: inverse_transform(transform(z)) is %s "
+                          "for z = %s" % (C.fmt(zi_), C.fmt(zz)), where="refit", after_update=False)
+                        y, y2 = y_main, y2_main
+                        break
+                y, y2 = y_main, y2_main
                 # the rest of the history is judged against the first training series again
                 if both("fit", lambda tr, yy: tr.fit(yy.iloc[:n_fit])) is None:
                     break
@@ -396,6 +434,37 @@ def execute(prop, scen):
                     v("stale_state_after_refit", "after set_params(%s) and a second fit the "
                       "transformer gives %s, a fresh one with that configuration gives %s" % (
                           new_params, C.fmt(a_), C.fmt(b_)), what=what)
+                    break
+                fitted, pos, updates_since_fit = True, n_fit, 0
+                if not after_fit():
+                    break
+            elif o == "failed_refit":
+                # a second fit that raises inside (a missing value the trend regressor rejects):
+                # a transformer that still reports is_fitted must still answer
+                from sktime.exceptions import NotFittedError
+                bad = y.iloc[:n_fit].copy()
+                bad.iloc[min(op["pos"], n_fit - 1)] = np.nan
+                raised = False
+                try:
+                    with peers.paused():
+                        t.fit(bad)
+                except Exception:
+                    raised = True
+                if raised and getattr(t, "is_fitted", False):
+                    res.probe("failed_refit_checked")
+                    res.fault("fit_raises_midway")
+                    try:
+                        with peers.paused():
+                            t.transform(y.iloc[1:1 + max(minlen_rt, min(8, n_fit - 1))].copy())
+                    except NotFittedError as e:
+                        v("op_raised", "after a second fit that raised the transformer reports "
+                          "is_fitted True but transform raises NotFittedError (%s)" % str(e)[:80],
+                          op="failed_refit", exc="NotFittedError")
+                        break
+                    except Exception:
+                        pass
+                # the history continues on a properly fitted pair
+                if both("fit", lambda tr, yy: tr.fit(yy.iloc[:n_fit])) is None:
                     break
                 fitted, pos, updates_since_fit = True, n_fit, 0
                 if not after_fit():
